@@ -3,7 +3,7 @@ import json
 import os
 
 from . import core
-from .core import tlc, tlc_json_lines, opwv, trace_validate, write_ndjson, read_ndjson, finish, apalache
+from .core import tlc, tlc_json_lines, opwv, trace_validate, write_ndjson, read_ndjson, finish, apalache, expect_rejected
 
 CHECKS = {}
 
@@ -106,6 +106,7 @@ def c07(ctx):
 def c18(ctx):
     nn, rr = (24, 24) if ctx.quick else (72, 72)
     apalache(ctx, "SamplerApa", "SampleOnArc")      # every integer offset of the specified sampler, symbolically
+    expect_rejected(ctx, "MC_Limits", "MC_SamplerLegacy", "Limits!LegacySample (the two-segment sampler as found) leaves the arc")
     tlc(ctx, "MC_Limits", cfg="MC_Sampler", constants={"NN": nn, "RR": rr}, workers=8)
     opwv(ctx, ["record", "samples", ctx.path("samples.trace")])
     viols, done = trace_validate(ctx, "Trace_Limits", ctx.path("samples.trace"))
@@ -262,6 +263,7 @@ SOLVER_ASSUME = ["numeric 1 um / 1 urad judgements are computed by the harness' 
 def c01(ctx):
     # the pipeline of inverse_continuing over abstract candidates: every path keeps the contract
     tlc(ctx, "SolverImpl", workers=8, xmx="12g")
+    expect_rejected(ctx, "SolverImpl", "SolverImplLeak", "SolverImpl!ShiftedLeak is reachable (answers taken over from a shifted pose)")
     ev, viols = solver_trace(ctx, "", 3 if ctx.quick else 10)
     solver_report(ctx, ev, viols, "C01")
     return finish(ctx, rule=SOLVER_RULE, assumptions=SOLVER_ASSUME)
@@ -571,6 +573,7 @@ def c11(ctx):
 # ----------------------------------------------------------------------------- C19
 @check("C19")
 def c19(ctx):
+    expect_rejected(ctx, "Gen_Yaml", "MC_YamlLegacy", "ParamFiles!LegacyReader cannot read the printer's own output")
     g = tlc(ctx, "Gen_Yaml", workers=8)
     lines = tlc_json_lines(g["out"], "yaml")
     if not lines:
@@ -623,6 +626,8 @@ def c20(ctx):
 @check("C13")
 def c13(ctx):
     consts = {"Grid": 7, "MaxTry": 2, "MaxBlocked": 1} if ctx.quick else {"Grid": 8, "MaxTry": 3, "MaxBlocked": 2}
+    expect_rejected(ctx, "Gen_Rrt", "MC_RrtDeviation", "Rrt!EagerAdd (vertex added before the freeness test) violates TreesFree")
+    consts["EagerAdd"] = "FALSE"
     g = tlc(ctx, "Gen_Rrt", constants=consts, workers=8, xmx="14g")
     lines = tlc_json_lines(g["out"], "rrt")
     if not lines:
@@ -668,6 +673,9 @@ def c13(ctx):
 def c12(ctx):
     # the race / algorithm model: every schedule of 2 strategies x every oracle outcome
     tlc(ctx, "MC_Stroke", workers=8, xmx="12g")
+    # non-vacuity: in the named deviation (stop flag raised before the strategy's own collision check) TLC must find
+    # the schedule in which a colliding strategy cancels the only viable one
+    expect_rejected(ctx, "MC_Stroke", "MC_StrokeDeviation", "Stroke!RaiseEarly violates RaceOK")
     opwv(ctx, ["record", "stroke", ctx.path("stroke.trace")], timeout=3300)
     viols, done = trace_validate(ctx, "Trace_Stroke", ctx.path("stroke.trace"))
     ev = read_ndjson(ctx.path("stroke.trace"))
